@@ -83,6 +83,10 @@ class DynV:
 class ClosureV:
     def __init__(self, d, upvars): self.d = d; self.upvars = upvars
 
+class FnItemV(ClosureV):
+    """a function item used as a value (`map_or(0, Into::into)`, `.map(u32::from)`): called by path"""
+    def __init__(self, path, ty): self.d = path; self.upvars = []; self.fn_ty = ty
+
 class OuterSink:
     """the `&mut dyn AmlSink` parameter of the function under analysis: records the trace"""
     def __init__(self, byte_only=False): self.segs = []; self.calls = []; self.byte_only = byte_only
@@ -198,6 +202,59 @@ def merge_bytes(segs):
         out.append(s); i += 1
     return out
 
+def flatten_stores(seq):
+    """the contents of a byte sequence after its recorded stores, as plain segments - when every piece has a constant
+    length and every store a constant position (a fixed-size buffer filled field by field); None otherwise"""
+    if not isinstance(seq, SeqV) or not seq.is_bytes(): return None
+    if not seq.stores: return list(seq.segs)
+    cells = []     # [start, length, seg]
+    pos = 0
+    for s in seq.segs:
+        l = seglen(s)
+        if l[0] != 'c': return None
+        if l[1]: cells.append([pos, l[1], s]); pos += l[1]
+    total = pos
+    if total > 65536: return None
+    def split_at(p):
+        for i, (st, ln, s) in enumerate(cells):
+            if st < p < st + ln:
+                k = p - st
+                if s[0] == 'int':
+                    if s[1][0] == 'c':
+                        a = ('int', C(s[1][1] & ((1 << (8 * k)) - 1)), k); b = ('int', C(s[1][1] >> (8 * k)), ln - k)
+                    else:
+                        a = ('int', trunc(s[1], 8 * k), k); b = ('int', shr(s[1], C(8 * k)), ln - k)
+                elif s[0] == 'rep' and s[2] is None and s[1][0] == 'c' and seqlen(s[3]) == ONE:
+                    a = ('rep', C(k), None, s[3]); b = ('rep', C(ln - k), None, s[3])
+                else:
+                    return False
+                cells[i:i + 1] = [[st, k, a], [p, ln - k, b]]
+                return True
+        return True
+    for (i, v) in seq.stores:
+        if isinstance(i, tuple) and i and i[0] == 'range':
+            lo, hi = i[1], i[2]; val = list(v)
+        elif isinstance(i, tuple) and i and i[0] == 'within':
+            return None
+        else:
+            lo, hi = i, add(i, ONE)
+            if not is_term(v): return None
+            val = [('int', v, 1)]
+        if not (is_term(lo) and is_term(hi) and lo[0] == 'c' and hi[0] == 'c'): return None
+        lo, hi = lo[1], hi[1]
+        if not (0 <= lo <= hi <= total): return None
+        vl = seqlen(val)
+        if vl[0] != 'c' or vl[1] != hi - lo: return None
+        if hi == lo: continue
+        if not split_at(lo) or not split_at(hi): return None
+        keep = [c for c in cells if c[0] + c[1] <= lo or c[0] >= hi]
+        newc = []; q = lo
+        for s in val:
+            l = seglen(s)[1]
+            if l: newc.append([q, l, s]); q += l
+        cells = sorted(keep + newc, key=lambda c: c[0])
+    return [c[2] for c in cells]
+
 def norm_segs(segs):
     """canonical form: empty segments dropped, constant conditions resolved, byte-wise pushes of one integer merged"""
     segs = merge_bytes(list(segs))
@@ -293,6 +350,8 @@ class Interp:
         self.fresh = 0
         self.active_loops = set()
         self._cur_var = None
+        self._iter_idx = None
+        self.range_index = {}
         self.depth = 0
 
     # -------------------------------------------------------------- helpers
@@ -537,17 +596,20 @@ class Interp:
             if sg[0] == 'fill': return sg[2]
             if sg[0] == 'rep' and sg[2] is None and len(sg[3]) == 1 and sg[3][0][0] == 'int' and sg[3][0][2] == 1: return sg[3][0][1]
             if sg[0] in ('sym', 'raw'):
+                ri = self.range_index.get(idx)
+                if ri is not None and ri[0] == sg[1] and len(s.segs) == 1:
+                    return self.sym_value(s.elem, ri[1])
                 if s.is_bytes() or int_bits(s.elem) or s.elem == 'char':
                     b = 8 if s.is_bytes() else (int_bits(s.elem) or 21)
                     sym.SEL_RANGE[sg[1]] = (0, (1 << b) - 1)
                     return ('sel', sg[1], idx)
                 return self.sym_value(s.elem, '%s[%s]' % (show(sg[1]), show(idx)))
-        if s.name and (s.is_bytes() or int_bits(s.elem)):
+        if s.name and (s.is_bytes() or int_bits(s.elem)) and len(s.segs) == 1 and s.segs[0][0] in ('sym', 'raw') and s.segs[0][1] == ('a', s.name):
             return ('sel', ('a', s.name), idx)
-        return self.top('index %s into %r' % (show(idx), s))
+        return self.top('symbolic index %s into a sequence of several pieces %r' % (show(idx), s))
 
     def seq_set(self, s, idx, v):
-        self.log.append(('mutate', 'index-store', None))
+        self.log.append(('mutate', 'index-store', None, getattr(s, 'uid', None)))
         s.stores.append((idx, v))
 
     def append_bytes(self, target, segs):
@@ -681,6 +743,7 @@ class Interp:
         # constant-fold
         live = []
         for c, th in conds_and_thunks:
+            if is_term(c): c = sym.as_cond(c)
             if c == FALSE: continue
             live.append((c, th))
             if c == TRUE: break
@@ -935,6 +998,7 @@ class Interp:
     def e_Zst(self, e):
         adt = self.f.adt(norm_ty(e['ty']))
         if adt: return StructV(adt['path'], {}, e['ty'])
+        if e.get('fn'): return FnItemV(e['fn'], self.resolve_ty(e['ty']))
         return self.top('zst', e)
 
     def e_Block(self, e):
@@ -999,7 +1063,18 @@ class Interp:
         return ClosureV(e['def'], [self.eval(u) if u['k'] != 'Borrow' else RefV(self.place(u['arg']), u['mut']) for u in e['upvars']])
 
     def e_Coerce(self, e):
-        return self.eval(e['arg'])
+        v = self.eval(e['arg'])
+        # unsizing to a trait object: remember the static type behind the reference (scalars carry no type of their own)
+        if isinstance(v, RefV) and 'dyn ' in (e.get('ty') or '') and isinstance(e.get('arg'), dict):
+            st = strip_refs(norm_ty(self.resolve_ty(e['arg'].get('ty', ''))))
+            if st and 'dyn ' not in st and getattr(v, 'src_ty', None) is None:
+                v = RefV(v.place, v.mut); v.src_ty = st
+                # a re-borrow (&**x) makes a new reference to the same place: keep the type on the place of a temporary too
+                try:
+                    if is_term(v.place.get()) and getattr(v.place, 'src_ty', None) is None: v.place.src_ty = st
+                except Exception:
+                    pass
+        return v
 
     def e_Cast(self, e):
         self.visited_casts.add(e.get('sp'))
@@ -1106,7 +1181,7 @@ class Interp:
     def e_Assign(self, e):
         v = self.eval(e['rhs'])
         p = self.place(e['lhs'])
-        if e['lhs'].get('k') != 'Var' and not isinstance(p, IndexPlace): self.log.append(('mutate', 'assign', e.get('sp')))
+        if e['lhs'].get('k') != 'Var' and not isinstance(p, IndexPlace): self.log.append(('mutate', 'assign', e.get('sp'), getattr(getattr(p, 'obj', None), 'uid', None)))
         p.set(v)
         return UNIT
 
@@ -1155,7 +1230,18 @@ class Interp:
         v = self.eval(e['scrut'])
         sv = v
         arms = []
+        # an or-pattern is one arm per alternative with the same body (each alternative binds the same names)
+        def alts(p):
+            if p.get('k') == 'Or': return [q for x in p['pats'] for q in alts(x)]
+            if p.get('k') == 'Deref' and isinstance(p.get('sub'), dict) and p['sub'].get('k') == 'Or':
+                return [dict(p, sub=q) for q in alts(p['sub'])]
+            return [p]
+        src_arms = []
         for arm in e['arms']:
+            al = alts(arm['pat'])
+            if len(al) == 1: src_arms.append(arm)
+            else: src_arms.extend(dict(arm, pat=q) for q in al)
+        for arm in src_arms:
             c = self.matches(arm['pat'], sv)
             def thunk(arm=arm):
                 self.bind(arm['pat'], sv)
@@ -1204,6 +1290,13 @@ class Interp:
     def iter_source(self, it):
         while isinstance(it, RefV): it = it.place.get()
         if isinstance(it, Top): return None, False
+        if isinstance(it, IterV) and isinstance(it.seq, RangeV): it = it.seq
+        if isinstance(it, RangeV) and it.hi is not None and is_term(it.lo) and is_term(it.hi):
+            # lo..hi is the sequence of its own indices
+            n_ = sub(it.hi, it.lo)
+            if it.lo[0] == 'c' and it.hi[0] == 'c' and 0 <= n_[1] <= 64:
+                return SeqV('usize', [('elem', C(i)) for i in range(it.lo[1], it.hi[1])]), False
+            return SeqV('usize', [('range', it.lo, it.hi)]), False
         if isinstance(it, IterV):
             sq = it.seq
             while isinstance(sq, RefV): sq = sq.place.get()
@@ -1220,10 +1313,13 @@ class Interp:
         while isinstance(itv, RefV): itv = itv.place.get()
         if isinstance(itv, IterV) and (itv.maps or itv.enum):
             inner = fn; maps = list(itv.maps)
-            if itv.enum: self.top('enumerate() is not modelled', e); return
             def fn(el, inner=inner, maps=maps):
+                idx = self._iter_idx
                 for m_ in maps:
-                    el = self.call_closure(m_, [el], e) if isinstance(m_, ClosureV) else el
+                    if m_ == 'enumerate':
+                        if idx is None: el = self.top('enumerate() over a sequence whose positions are not known', e)
+                        else: el = TupleV([idx, el])
+                    elif isinstance(m_, ClosureV): el = self.call_closure(m_, [el], e)
                 return inner(el)
         if isinstance(seq, SliceV):
             r = self.slice_segs(seq)
@@ -1246,27 +1342,59 @@ class Interp:
             if not segs: return
             # short constant sequences are unrolled; everything else is summarised as one repetition
             if all(s[0] == 'int' and s[2] == 1 for s in segs) and len(segs) <= 4:
-                for s in segs: fn(wrap_ref(s[1]))
+                for k_, s in enumerate(segs):
+                    self._iter_idx = C(k_); fn(wrap_ref(s[1]))
+                self._iter_idx = None
                 return
             import zlib
             nm = 'byte<%08x>' % zlib.crc32(repr(segs).encode())
             el = A(nm, 0, 255)
+            self._iter_idx = self._index_atom(nm, seqlen(segs))
             self.summarise(lambda: fn(wrap_ref(el)), seqlen(segs), nm, el, tuple(segs), e)
+            self._iter_idx = None
             return
+        pos = ZERO
         for s in list(seq.segs):
             if s[0] == 'elem':
-                fn(wrap_ref(s[1]))
+                self._iter_idx = pos
+                fn(wrap_ref(s[1])); pos = add(pos, ONE)
             elif s[0] == 'sym':
                 nm = show(s[1]) + '[i]'
                 while nm in self.active_loops: nm += "'"
                 self.active_loops.add(nm)
                 el = self.sym_value(seq.elem, nm)
+                self._iter_idx = add(pos, self._index_atom(nm, ('len', s[1])))
                 self.summarise(lambda: fn(wrap_ref(el)), ('len', s[1]), nm, el, None, e)
-                self.active_loops.discard(nm)
+                self.active_loops.discard(nm); pos = add(pos, ('len', s[1]))
+            elif s[0] == 'range':
+                # for i in lo..hi: one symbolic iteration with i = lo + idx
+                cnt = sub(s[2], s[1])
+                lo_, hi_ = rng(cnt)
+                if lo_ < 0: cnt = ite(cmp('le', s[1], s[2]), cnt, ZERO)
+                ia = self._index_atom('range(%s..%s)' % (show(s[1]), show(s[2])), cnt)
+                self._iter_idx = add(pos, ia)
+                vn = None
+                if s[1] == ZERO and s[2][0] == 'len':
+                    # `for i in 0..v.len()`: v[i] inside the body is the loop's element, exactly as in `for x in &v`
+                    vn = show(s[2][1]) + '[i]'
+                    while vn in self.active_loops: vn += "'"
+                    self.active_loops.add(vn)
+                    self.range_index[ia] = (s[2][1], vn)
+                self.summarise(lambda: fn(wrap_ref(add(s[1], ia))), cnt, vn, add(s[1], ia), None, e); pos = add(pos, cnt)
+                if vn: self.active_loops.discard(vn); self.range_index.pop(ia, None)
             elif s[0] == 'fill':
-                self.summarise(lambda: fn(wrap_ref(fcopy(s[2]))), s[1], None, s[2], None, e)
+                self._iter_idx = add(pos, self._index_atom('fill@%s' % show(pos), s[1]))
+                self.summarise(lambda: fn(wrap_ref(fcopy(s[2]))), s[1], None, s[2], None, e); pos = add(pos, s[1])
             else:
                 self.top('iteration over segment %r' % (s,), e)
+        self._iter_idx = None
+
+    def _index_atom(self, nm, count):
+        """the position of the current element inside a summarised repetition: an atom in [0, count)"""
+        a = ('a', 'idx(%s)' % nm)
+        lo, hi = rng(count)
+        sym.ATOM_RANGE[a[1]] = (0, max(hi - 1, 0)) if hi < sym.BIG else (0, sym.BIG)
+        return a
 
     def _containers(self):
         """all SeqV / OuterSink / int-holding places reachable from the state"""
@@ -1479,6 +1607,16 @@ class Interp:
         return r
 
     def call_closure(self, cv, args, e=None):
+        if isinstance(cv, FnItemV):
+            # fn(A, B) -> R {path}: rebuild a call expression for the dispatcher
+            m = re.match(r'^(?:unsafe )?(?:extern "[^"]*" )?fn\((.*)\)(?: -> (.*?))? \{', cv.fn_ty or '')
+            ptys = split_generics('X<%s>' % m.group(1))[1] if m and m.group(1) else []
+            ret = (m.group(2) if m and m.group(2) else '()')
+            ce = {'k': 'Call', 'callee': cv.d, 'resolved': cv.d, 'callee_name': cv.d.split('::')[-1], 'ty': ret, 'sp': (e or {}).get('sp') if isinstance(e, dict) else None,
+                  'args': [{'ty': (ptys[i] if i < len(ptys) else '?')} for i in range(len(args))], 'generics': [], 'generic_sizes': []}
+            for a in args:
+                if isinstance(a, Top): return a
+            return self.dispatch(cv.d, list(args), ce)
         b = self.f.bodies.get(cv.d)
         if not b: return self.top('closure body ' + cv.d, e)
         # upvars: collect Upvar ids in order of first appearance matches capture order
@@ -1522,6 +1660,9 @@ class Interp:
                 sq = self.sink_target(v)
                 if isinstance(sq, SeqV) and sq.is_bytes() and not sq.stores:
                     tgt.segs.extend(sq.segs); return UNIT
+                if isinstance(sq, SeqV) and sq.is_bytes():
+                    fl = flatten_stores(sq)
+                    if fl is not None: tgt.segs.extend(norm_segs(fl)); return UNIT
                 if isinstance(sq, SliceV):
                     r = self.slice_segs(sq)
                     if r is not None: tgt.segs.extend(r); return UNIT
@@ -1559,16 +1700,29 @@ class Interp:
                 a, b2 = pos, pos + l[1]
                 if b2 <= lo[1] or a >= hi[1]: pos = b2; continue
                 if a >= lo[1] and b2 <= hi[1]: out.append(s)
+                elif s[0] == 'int':
+                    # a sub-range of the little-endian bytes of one integer: the bits [8*(from), 8*(to)) of its value
+                    fr_, to_ = max(a, lo[1]) - a, min(b2, hi[1]) - a
+                    x = s[1]
+                    part = shr(x, C(8 * fr_)) if fr_ else x
+                    if to_ < l[1]:
+                        # the upper bytes are dropped: this is a narrowing of the value (recorded like an `as` cast)
+                        plo, phi = rng(part)
+                        fits = plo >= 0 and phi < (1 << (8 * (to_ - fr_)))
+                        self.casts.append({'from': 'u%d' % (8 * l[1]), 'to': 'u%d' % (8 * (to_ - fr_)), 'term': part, 'sp': None, 'fits': fits, 'mac': None, 'fn': self.frame().d if self.st.frames else '?',
+                                           'facts': [c for c, _ in self.st.facts], 'expr': 'le_bytes(%s)[%d..%d]' % (show(x)[:60], fr_, to_)})
+                        part = trunc(part, 8 * (to_ - fr_))
+                    out.append(('int', part, to_ - fr_))
                 elif s[0] == 'raw': out.append(('raw', ('call', 'slice', s[1], C(max(a, lo[1]) - a), C(min(b2, hi[1]) - a)), C(min(b2, hi[1]) - max(a, lo[1]))))
                 elif s[0] == 'rep' and s[2] is None and seqlen(s[3]) == ONE: out.append(('rep', C(min(b2, hi[1]) - max(a, lo[1])), None, s[3]))
                 else: return None
                 pos = b2
             return out
         # symbolic prefix of a single raw/fill segment
-        if len(seq.segs) == 1 and lo == ZERO:
+        if len(seq.segs) == 1:
             s = seq.segs[0]
-            if s[0] == 'raw': return [('raw', ('call', 'slice', s[1], lo, hi), hi)]
-            if s[0] == 'rep' and s[2] is None and seqlen(s[3]) == ONE: return [('rep', hi, None, s[3])]
+            if s[0] == 'raw': return [('raw', ('call', 'slice', s[1], lo, hi), sub(hi, lo))]
+            if s[0] == 'rep' and s[2] is None and seqlen(s[3]) == ONE: return [('rep', sub(hi, lo), None, s[3])]
         # all-equal constant bytes: any sub-range is a fill of that byte
         flat = norm_segs(seq.segs)
         if flat and all(s[0] == 'int' and s[2] == 1 and s[1] == flat[0][1] for s in flat):
@@ -1590,6 +1744,10 @@ class Interp:
                 return self.call_local(d, [args[1], RefV(Cell(SeqV('u8', [seg])))], e)
             return self.top('dyn to_aml_bytes into %r' % (tgt,), e)
         ty = self.aml_type_of(obj, e)
+        if (ty is None or 'dyn ' in ty) and not isinstance(obj, (StructV, EnumV)):
+            r0 = args[0]
+            while isinstance(r0, RefV) and getattr(r0, 'src_ty', None) is None and getattr(r0.place, 'src_ty', None) is None and isinstance(r0.place.get(), RefV): r0 = r0.place.get()
+            if isinstance(r0, RefV): ty = getattr(r0, 'src_ty', None) or getattr(r0.place, 'src_ty', None) or ty
         d = self.f.method('Aml', ty, 'to_aml_bytes') if ty else None
         if d is None: return self.top('no Aml impl for %r (%s)' % (obj, ty), e)
         return self.call_local(d, [args[0], args[1]], e)
